@@ -10,7 +10,7 @@ EXPLANATION = (
     'the ones macros_expand_params and Macros::dump use. SAVE-RESTORE: include_parse puts back input file, file name, '
     'line number and listing switch on every path to its exit. REPEAT: .repeat copies exactly the image range assembled '
     'for its body, count-1 more times. T-SIB(b): macro pool walkers restart their offset per pool. R-ERR1: results of '
-    'macros_append / macros_push_define / macros_parse / macros_expand_params are examined. DEFINE-STRIP: a define value collected character by character from the source passes macros_strip() before it is stored. STRIP-CUTS: every store of macros_strip() depends on a comment test, it removes nothing else.')
+    'macros_append / macros_push_define / macros_parse / macros_expand_params are examined. DEFINE-STRIP: a define value collected character by character from the source passes macros_strip() before it is stored. STRIP-CUTS: every store of macros_strip() depends on a comment test, it removes nothing else. QUOTE-STATE: the argument-list nesting counter of macros_expand_params changes only under tests of every quote-state flag (string and character literal).')
 
 
 def run(tier, t0):
@@ -24,5 +24,5 @@ def run(tier, t0):
     pw.obs = [o for o in pw.obs if o.file == 'core/Macros.cpp']
     pw.floor = 3
     results = [sym.marker(prog), sym.save_restore(prog), sym.repeat(prog), pw, e1,
-               sym.find_exhaustive(prog, lambda f: f.file == 'core/Macros.cpp', 1), sym.unget_eof(prog), defstrip.define_strip(prog), defstrip.strip_cuts(prog)]
+               sym.find_exhaustive(prog, lambda f: f.file == 'core/Macros.cpp', 1), sym.unget_eof(prog), defstrip.define_strip(prog), defstrip.strip_cuts(prog), defstrip.quote_state(prog)]
     return report.finish('C09', tier, results, EXPLANATION, [], common.TRUSTED, t0)
